@@ -491,11 +491,6 @@ def _git_mechanism(base_tree, this_tree, other_tree, base_snap, this_snap, other
 
     try:
         with base_tree.lock_read(), this_tree.lock_read(), other_tree.lock_read():
-            for q, v in sorted(other_snap.items()):
-                if q not in base_snap and v[0] != "directory":
-                    tp = _mod_tree.find_previous_path(other_tree, this_tree, q)
-                    if tp not in (None, q):
-                        return "new-file-paired-with-alike-file-in-this"
             image = {}
             for p, v in sorted(base_snap.items()):
                 tp = _mod_tree.find_previous_path(base_tree, this_tree, p)
